@@ -24,6 +24,19 @@
 // tree, the behaviours generated with Hooks = TRUE park the accept loop
 // between Accept and the counter update and the timer func before it takes
 // the mutex; without them those behaviours are skipped.
+//
+// Behaviours generated with SSHook = TRUE run with a ServeStartHook installed
+// (Server.SetServeStartHook) whose every call for the listener's transport kind
+// parks on a gate the schedule controls (ReleaseHook: return nil / an error);
+// "Rebind" binds the same Server to the pipe transport in between (Serve over an
+// empty reader), so that the next connection fires the hook again. The hook is
+// user code that runs for an accepted connection: once it has been entered the
+// connections Accept has returned so far are open connections of the listener,
+// and real time (Wait = 3 x idleTimeout) passes while it is parked. Observed in
+// addition: which connections Accept has returned (accept-queue order = connect
+// order), whether a hook call is parked, which connections the server closed,
+// and - where a probe connection would itself run into the hook - whether the
+// listening socket still exists (socket file / LISTEN entry in /proc/net/tcp).
 package listener
 
 import (
@@ -80,6 +93,9 @@ func writeEcho(w io.Writer, payload string) error {
 
 var sockSeq atomic.Int64
 
+// full-length waits for something the specification predicted that never came (this process)
+var slowWaits atomic.Int32
+
 // Are the optional hook points compiled into the tree under test?
 var (
 	probeOnce sync.Once
@@ -120,7 +136,11 @@ type result struct {
 
 type cconn struct {
 	id        int
+	seq       int // position in connect order (probe connections included); 0 = never connected
 	nc        net.Conn
+	eof       bool      // the client's reader has seen the end of the stream
+	dropped   bool      // the schedule made the serve-start hook fail for it: the server drops it
+	dropAt    time.Time // taken before the hook was released with the error
 	res       chan result
 	opened    time.Time
 	closed    time.Time
@@ -132,6 +152,7 @@ type cconn struct {
 type stepper struct {
 	transport string
 	wantHooks bool
+	ssHook    bool // a gated ServeStartHook is installed
 	points    bool
 	skipAll   bool
 	n         int
@@ -151,6 +172,9 @@ type stepper struct {
 	inCall     map[int]chan struct{}  // connection id -> release channel of its parked handler
 	accParked  []chan struct{}        // accept loop parked after Accept (at most one)
 	accCount   int                    // connections Accept has returned so far
+	dialSeq    int                    // connections (probes included) that have connected so far
+	hookParked chan error             // the serve-start hook call parked right now (single flight)
+	hookCalls  int
 	timParked  []chan struct{}        // timer funcs parked before mu, in arrival order
 	conns      map[int]*cconn
 	order      []int // connection ids in Open order
@@ -172,15 +196,19 @@ func (s *stepper) Begin(b replay.Behaviour, rng *rand.Rand) error {
 	s.n = replay.Int(b[0].Args, "NC")
 	s.transport = replay.Str(b[0].Args, "Transport")
 	s.wantHooks = replay.Bool(b[0].Args, "Hooks")
+	s.ssHook = replay.Bool(b[0].Args, "SSHook")
 	s.points = haveHookPoints()
 	s.inCall = map[int]chan struct{}{}
 	s.conns = map[int]*cconn{}
 	s.prog = map[string]int{"counted": 0, "done": 0, "timer_runs": 0}
-	if s.wantHooks && !s.points {
+	if (s.wantHooks || s.ssHook) && !s.points {
 		s.skipAll = true
 		return nil
 	}
 	s.rpc = vgirpc.NewServer()
+	if s.ssHook {
+		s.rpc.SetServeStartHook(s.serveStartHook)
+	}
 	vgirpc.Unary(s.rpc, "echo", func(_ context.Context, _ *vgirpc.CallContext, p echoParams) (string, error) {
 		id := payloadConn(p.S)
 		s.mu.Lock()
@@ -304,7 +332,12 @@ func (s *stepper) End() {
 	s.inCall = map[int]chan struct{}{}
 	s.accParked, s.timParked = nil, nil
 	conns := s.conns
+	hk := s.hookParked
+	s.hookParked = nil
 	s.mu.Unlock()
+	if hk != nil {
+		hk <- nil
+	}
 	for _, ch := range rel {
 		close(ch)
 	}
@@ -318,6 +351,75 @@ func (s *stepper) End() {
 	if s.points {
 		vgirpc.SetVerifHook(nil)
 	}
+}
+
+var errScheduled = errors.New("serve-start hook refused (scheduled by the replay)")
+
+// serveStartHook is the user hook of the SSHook behaviours. A call for another transport
+// kind (Rebind) returns at once; a call for the listener's kind parks until the schedule
+// releases it. It runs for a connection Accept has returned: on entry every connection
+// Accept has returned so far (and the client has not closed) is noted as demonstrably open,
+// provided the listening socket is still seen after that moment.
+func (s *stepper) serveStartHook(kind vgirpc.TransportKind, _ map[string]bool) error {
+	if string(kind) != s.transport {
+		return nil
+	}
+	now := time.Now()
+	s.mu.Lock()
+	if s.open {
+		s.mu.Unlock()
+		return nil
+	}
+	acc := s.accCount
+	s.mu.Unlock()
+	listening := s.passiveListening()
+	if os.Getenv("VERIF_DEBUG") != "" {
+		fmt.Fprintf(os.Stderr, "  serve-start hook entered at +%s (accepted so far %d, listening %v)\n", time.Since(s.started).Round(time.Millisecond), acc, listening)
+	}
+	g := make(chan error, 1)
+	s.mu.Lock()
+	if listening && now.After(s.lastListening) {
+		s.lastListening = now
+	}
+	for _, c := range s.conns {
+		if c.nc != nil && c.seq > 0 && c.seq <= acc && !c.isClosed && !c.dropped && c.confirmed.IsZero() {
+			c.confirmed = now
+		}
+	}
+	s.hookCalls++
+	s.hookParked = g
+	s.mu.Unlock()
+	return <-g
+}
+
+// passiveListening: does the listening socket still exist? Unix: the socket file (closing a
+// Go UnixListener unlinks it first); TCP: a LISTEN entry for the port in /proc/net/tcp.
+// Errs on the side of "no".
+func (s *stepper) passiveListening() bool {
+	if s.transport == "unix" {
+		fi, err := os.Lstat(s.path)
+		return err == nil && fi.Mode()&os.ModeSocket != 0
+	}
+	_, ps, err := net.SplitHostPort(s.addr)
+	if err != nil {
+		return false
+	}
+	port, err := strconv.Atoi(ps)
+	if err != nil {
+		return false
+	}
+	b, err := os.ReadFile("/proc/net/tcp")
+	if err != nil {
+		return false
+	}
+	want := fmt.Sprintf("0100007F:%04X", port)
+	for _, line := range strings.Split(string(b), "\n") {
+		f := strings.Fields(line)
+		if len(f) >= 4 && f[1] == want && f[3] == "0A" {
+			return true
+		}
+	}
+	return false
 }
 
 func isTimeout(err error) bool {
@@ -393,6 +495,9 @@ func (s *stepper) dial() (net.Conn, error) {
 	}
 	if err == nil {
 		s.sawListening(t0)
+		s.mu.Lock()
+		s.dialSeq++
+		s.mu.Unlock()
 	}
 	return nc, err
 }
@@ -433,15 +538,19 @@ func (s *stepper) sockState() string {
 	return fmt.Sprintf("%04o", fi.Mode().Perm())
 }
 
-// servedOpen finds a connection that was demonstrably registered (its handler ran) at a
-// time when the listener was afterwards still seen listening, and that the client had not
-// closed by time t. Every timestamp errs on the side of not claiming: confirmed is taken
+// servedOpen finds a connection that was demonstrably open for the listener (its handler ran,
+// or the serve-start hook was entered after Accept had returned it) at a time when the
+// listener was afterwards still seen listening, and that neither the client had closed nor
+// the server had been told to drop (scheduled hook failure) by time t. Every timestamp errs on the side of not claiming: confirmed is taken
 // inside the handler, closed before the close call, lastListening before the observation.
 // (mu held by caller)
 func (s *stepper) servedOpen(t time.Time) (int, bool) {
 	for id, c := range s.conns {
 		if c.nc == nil || c.confirmed.IsZero() || c.confirmed.After(s.lastListening) {
 			continue
+		}
+		if c.dropped && !c.dropAt.After(t) {
+			continue // the server itself dropped it (scheduled hook failure)
 		}
 		if !c.isClosed || c.closed.After(t) {
 			return id, true
@@ -453,7 +562,7 @@ func (s *stepper) servedOpen(t time.Time) (int, bool) {
 func (s *stepper) clientOpen() int {
 	n := 0
 	for _, c := range s.conns {
-		if c.nc != nil && !c.isClosed {
+		if c.nc != nil && !c.isClosed && !c.dropped {
 			n++
 		}
 	}
@@ -471,6 +580,7 @@ func (s *stepper) drain() {
 			case r, ok := <-c.res:
 				if !ok {
 					c.res = nil
+					c.eof = true
 					more = false
 					break
 				}
@@ -495,7 +605,7 @@ func (s *stepper) judgeReturn() (string, string) {
 	s.mu.Lock()
 	defer s.mu.Unlock()
 	if id, ok := s.servedOpen(s.retAt); ok {
-		return "violation", fmt.Sprintf("listener returned while served connection %d was open", id)
+		return "violation", fmt.Sprintf("listener returned while connection %d (accepted; its handler or serve-start hook had been entered) was open", id)
 	}
 	ref := s.firstQuiet
 	if ref.IsZero() {
@@ -518,7 +628,7 @@ func (s *stepper) judgeClosed() (string, string) {
 	s.mu.Lock()
 	defer s.mu.Unlock()
 	if id, ok := s.servedOpen(time.Now()); ok {
-		return "violation", fmt.Sprintf("listener stopped listening while served connection %d was open", id)
+		return "violation", fmt.Sprintf("listener stopped listening while connection %d (accepted; its handler or serve-start hook had been entered) was open", id)
 	}
 	if s.wantHooks {
 		return "violation", "listener stopped listening although the specification keeps it listening after this step (every timer func is gated)"
@@ -541,13 +651,31 @@ func (s *stepper) snapshot(st replay.Step, obs replay.Obs) replay.Obs {
 	expAcc := replay.Int(st.Exp, "parked_accept")
 	expTim := replay.Int(st.Exp, "parked_timers")
 	expProg := replay.Map(st.Exp, "progress")
+	expInHook := replay.Bool(st.Exp, "in_hook")
+	expAccepted := boolsOf(st.Exp["accepted"])
+	expSrvClosed := boolsOf(st.Exp["srv_closed"])
+	expAccepting, _ := st.Exp["accepting"].(bool)
 	// wait for what the specification says happens by itself
-	deadline := time.Now().Add(arriveTimeout)
+	t0 := time.Now()
+	lastLook := t0
+	arrive := arriveTimeout
+	if s.ssHook && slowWaits.Load() >= 2 {
+		// two full waits were already in vain in this process (on the unchanged code that
+		// means two reported disagreements already): do not spend 15 s on each further one
+		arrive = arriveTimeout / 5
+	}
+	deadline := t0.Add(arrive)
 	if expReturned {
-		deadline = time.Now().Add(returnBound)
+		deadline = t0.Add(returnBound)
+		if arrive < arriveTimeout {
+			deadline = t0.Add(returnBound / 4)
+		}
 	}
 	for {
 		s.mu.Lock()
+		if s.ssHook {
+			s.drain()
+		}
 		ok := s.returned.Load() == expReturned || (!expReturned && s.returned.Load())
 		for c := 1; c <= s.n && c <= len(expIn); c++ {
 			_, in := s.inCall[c]
@@ -561,6 +689,20 @@ func (s *stepper) snapshot(st replay.Step, obs replay.Obs) replay.Obs {
 			}
 			if len(s.timParked) < expTim {
 				ok = false
+			}
+		}
+		if s.ssHook {
+			if expInHook && s.hookParked == nil {
+				ok = false
+			}
+			for c := 1; c <= s.n; c++ {
+				cc := s.conns[c]
+				if c <= len(expAccepted) && expAccepted[c-1] && !(cc != nil && cc.seq > 0 && s.accCount >= cc.seq) {
+					ok = false
+				}
+				if c <= len(expSrvClosed) && expSrvClosed[c-1] && !(cc != nil && cc.eof) {
+					ok = false
+				}
 			}
 		}
 		if s.points {
@@ -577,8 +719,20 @@ func (s *stepper) snapshot(st replay.Step, obs replay.Obs) replay.Obs {
 			}
 		}
 		s.mu.Unlock()
-		if ok || time.Now().After(deadline) {
+		if ok {
 			break
+		}
+		if time.Now().After(deadline) {
+			slowWaits.Add(1)
+			break
+		}
+		if s.ssHook && !expReturned && expAccepting && time.Since(lastLook) > 25*time.Millisecond {
+			lastLook = time.Now()
+			if !s.returned.Load() && !s.passiveListening() {
+				// the listener has closed its socket although the specification keeps it
+				// listening: what this wait is for will not come; it is judged below
+				break
+			}
 		}
 		time.Sleep(500 * time.Microsecond)
 	}
@@ -605,6 +759,15 @@ func (s *stepper) snapshot(st replay.Step, obs replay.Obs) replay.Obs {
 	tim := 0
 	if s.wantHooks {
 		tim = len(s.timParked)
+	}
+	inHook := s.hookParked != nil
+	accepted := make([]bool, s.n)
+	srvClosed := make([]bool, s.n)
+	for c := 1; c <= s.n; c++ {
+		if cc := s.conns[c]; cc != nil {
+			accepted[c-1] = cc.seq > 0 && s.accCount >= cc.seq
+			srvClosed[c-1] = cc.eof && !cc.isClosed
+		}
 	}
 	stray := s.strayCalls
 	progress := map[string]int{}
@@ -681,7 +844,14 @@ func (s *stepper) snapshot(st replay.Step, obs replay.Obs) replay.Obs {
 	obs["got"] = got
 	obs["parked_accept"] = acc
 	obs["parked_timers"] = tim
-	if s.points {
+	if s.ssHook {
+		// (progress is what this observation waited for - the notification points are
+		// synchronisation only here: a critical section that never runs shows in what the
+		// listener then does, in this step or a later one)
+		obs["in_hook"] = inHook
+		obs["accepted"] = accepted
+		obs["srv_closed"] = srvClosed
+	} else if s.points {
 		obs["progress"] = progress
 	}
 	if stray > 0 && obs["__note__"] == nil {
@@ -724,6 +894,7 @@ func (s *stepper) Step(i int, st replay.Step) (replay.Obs, error) {
 		s.conns[c] = cc
 		if err == nil {
 			s.order = append(s.order, c)
+			cc.seq = s.dialSeq
 		}
 		s.mu.Unlock()
 		obs["connected"] = err == nil
@@ -765,9 +936,10 @@ func (s *stepper) Step(i int, st replay.Step) (replay.Obs, error) {
 		now := time.Now()
 		err := cc.nc.Close()
 		s.mu.Lock()
+		wasDropped := cc.dropped
 		cc.isClosed = true
 		cc.closed = now
-		if s.clientOpen() == 0 {
+		if s.clientOpen() == 0 && !wasDropped {
 			s.lastQuiet = now
 			if s.firstQuiet.IsZero() {
 				s.firstQuiet = now
@@ -846,6 +1018,53 @@ func (s *stepper) Step(i int, st replay.Step) (replay.Obs, error) {
 		}
 		close(ch)
 		obs["counted"] = true
+	case "ReleaseHook":
+		ok := replay.Bool(st.Args, "ok")
+		now := time.Now() // before the release: the server cannot drop the connection earlier
+		s.mu.Lock()
+		g := s.hookParked
+		s.hookParked = nil
+		if g != nil && !ok {
+			if cc := s.conns[c]; cc != nil && !cc.dropped {
+				cc.dropped = true
+				cc.dropAt = now
+				if !cc.isClosed && s.clientOpen() == 0 {
+					// the listener is idle from here on, like after a close
+					s.lastQuiet = now
+					if s.firstQuiet.IsZero() {
+						s.firstQuiet = now
+					}
+					s.armedOnce = true
+				}
+			}
+		}
+		s.mu.Unlock()
+		if g == nil {
+			return nil, fmt.Errorf("ReleaseHook: no serve-start hook call is parked")
+		}
+		if ok {
+			g <- nil
+		} else {
+			g <- errScheduled
+		}
+		obs["released"] = true
+	case "Rebind":
+		// A serve goroutine that was waiting for transportNotifyMu while the hook was parked
+		// passes notifyTransport unobserved once the hook has returned; the specification
+		// has it do so before this step. Give it a moment (if it loses the race it fires the
+		// hook itself: in_hook differs, the behaviour stops there, nothing is judged).
+		time.Sleep(30 * time.Millisecond)
+		done := make(chan struct{})
+		go func() {
+			defer close(done)
+			s.rpc.Serve(strings.NewReader(""), io.Discard)
+		}()
+		select {
+		case <-done:
+		case <-time.After(arriveTimeout):
+			return nil, fmt.Errorf("Rebind: Serve over an empty pipe did not return")
+		}
+		obs["kind"] = string(s.rpc.TransportKind())
 	case "ReleaseTimer":
 		s.mu.Lock()
 		var ch chan struct{}
@@ -877,23 +1096,72 @@ func (s *stepper) Step(i int, st replay.Step) (replay.Obs, error) {
 	// While a served connection is open the listener must still accept: a probe connection
 	// (connect, close) is harmless then — the counter stays above zero throughout.
 	out["__skip__"] = true // "accepting" is only observed when a probe is possible
+	if s.ssHook && s.wantHooks {
+		// every timer func is gated: the specification says exactly when the listening
+		// socket is closed, and looking for it disturbs nothing
+		out["accepting"] = !s.returned.Load() && s.passiveListening()
+		if want, _ := st.Exp["accepting"].(bool); want && out["accepting"] == false && out["__note__"] == nil {
+			_, out["__note__"] = s.judgeClosed()
+		}
+		return out, nil
+	}
 	if !s.wantHooks && !s.returned.Load() {
 		s.mu.Lock()
 		probe := false
 		for _, c := range s.conns {
-			if c.nc != nil && !c.confirmed.IsZero() && !c.isClosed {
+			if c.nc != nil && !c.confirmed.IsZero() && !c.isClosed && !c.dropped {
 				probe = true
 			}
 		}
+		passive := false
+		if probe && s.ssHook && (s.hookParked != nil || string(s.rpc.TransportKind()) != s.transport) {
+			// a probe connection would queue behind the parked hook call, or fire the hook
+			// itself: look at the listening socket instead
+			probe, passive = false, true
+		}
+		before := s.prog["done"]
 		if probe {
 			s.probes++
 		}
 		s.mu.Unlock()
+		if passive {
+			t0 := time.Now()
+			if s.passiveListening() {
+				s.sawListening(t0)
+				out["accepting"] = true
+			} else {
+				time.Sleep(20 * time.Millisecond)
+				if s.returned.Load() {
+					if verdict, why := s.judgeReturn(); verdict == "skip" {
+						s.skipAll = true
+						return replay.Obs{"__skip__": true, "__note__": why}, nil
+					}
+				} else if verdict, why := s.judgeClosed(); verdict == "skip" {
+					s.skipAll = true
+					return replay.Obs{"__skip__": true, "__note__": why}, nil
+				} else {
+					out["__note__"] = why
+				}
+				out["accepting"] = false
+			}
+		}
 		if probe {
 			nc, err := s.dial()
 			if err == nil {
 				nc.Close()
 				out["accepting"] = true
+				if s.ssHook {
+					// let the probe's serve goroutine finish before the next step: it must
+					// pass notifyTransport while the Server is still bound to this kind
+					for t0 := time.Now(); time.Since(t0) < arriveTimeout; time.Sleep(200 * time.Microsecond) {
+						s.mu.Lock()
+						done := s.prog["done"] > before
+						s.mu.Unlock()
+						if done {
+							break
+						}
+					}
+				}
 			} else if isTimeout(err) {
 				s.skipAll = true
 				return replay.Obs{"__skip__": true, "__note__": "unrealisable: probe " + err.Error()}, nil
